@@ -225,6 +225,28 @@ func consistency(c *core.Ctx, fd protoreflect.FileDescriptor, origin string) int
 				if fs.ByNumber(f.Number()) != f {
 					bad("oneof %s lists field %s that is not a field of the message", od.FullName(), f.FullName())
 				}
+				// the oneof's own keyed views agree with its list and with the message's views
+				ofs := od.Fields()
+				if ofs.ByNumber(f.Number()) != f || ofs.ByName(f.Name()) != f {
+					bad("oneof %s: ByNumber/ByName(%s) does not return the listed member", od.FullName(), f.Name())
+				}
+				if g := ofs.ByJSONName(f.JSONName()); g == nil || g.JSONName() != f.JSONName() || fs.ByJSONName(f.JSONName()) != nil && g.ContainingOneof() != od {
+					bad("oneof %s: ByJSONName(%s) inconsistent", od.FullName(), f.JSONName())
+				}
+				if g := ofs.ByTextName(f.TextName()); g == nil || g.TextName() != f.TextName() || g.ContainingOneof() != od {
+					bad("oneof %s: ByTextName(%s) does not return a member with that text name", od.FullName(), f.TextName())
+				}
+			}
+			if ofs := od.Fields(); ofs.ByName("no_such_member") != nil || ofs.ByNumber(536870000) != nil || ofs.ByJSONName("noSuchMember") != nil || ofs.ByTextName("no_such_member") != nil {
+				bad("oneof %s: lookup of an absent key returns a field", od.FullName())
+			}
+			for k := 0; k < fs.Len(); k++ {
+				// a field that is not a member must not be found through the oneof
+				if o := fs.Get(k); o.ContainingOneof() != od {
+					if od.Fields().ByNumber(o.Number()) != nil || od.Fields().ByName(o.Name()) != nil || od.Fields().ByTextName(o.TextName()) != nil && od.Fields().ByTextName(o.TextName()).ContainingOneof() != od {
+						bad("oneof %s: lookup finds non-member %s", od.FullName(), o.Name())
+					}
+				}
 			}
 		}
 		for i := 0; i < md.Enums().Len(); i++ {
@@ -298,7 +320,7 @@ func enumProbes(r protoreflect.EnumRanges) []protoreflect.EnumNumber {
 }
 
 func runC36(c *core.Ctx) {
-	c.Rule = "every descriptor of every linked file (raw-descriptor built) and of every schema of S(f) (protodesc built), including the legal duplicate-key shapes that make 'first element wins' observable (enum aliases under allow_alias, two fields sharing an explicit json_name, a JSON name equal to another field's proto name): Get(i).Index()==i; ByName/ByNumber/ByJSONName/ByTextName return the first element with that key and nil for absent keys; FullName == parent-scope FullName + '.' + Name (enum values: the enum's parent); Parent chains end at the file; Has on reserved and extension ranges == membership for every number within 2 of every boundary and 0, 1, 2^29-1, 2^29; RequiredNumbers == the required fields; oneof/field and map key/value links are mutual. Range lists additionally enumerated directly: all lists of <=3 ranges over numbers 1..6 through NewFile for reserved, extension and enum reserved ranges"
+	c.Rule = "every descriptor of every linked file (raw-descriptor built) and of every schema of S(f) (protodesc built), including the legal duplicate-key shapes that make 'first element wins' observable (enum aliases under allow_alias, two fields sharing an explicit json_name, a JSON name equal to another field's proto name): Get(i).Index()==i; ByName/ByNumber/ByJSONName/ByTextName return the first element with that key and nil for absent keys; FullName == parent-scope FullName + '.' + Name (enum values: the enum's parent); Parent chains end at the file; Has on reserved and extension ranges == membership for every number within 2 of every boundary and 0, 1, 2^29-1, 2^29; RequiredNumbers == the required fields; oneof/field and map key/value links are mutual; the keyed views of every oneof (ByName/ByNumber/ByJSONName/ByTextName over its members, incl. group members whose text name is the type name) agree with its member list and find no non-member. Range lists additionally enumerated directly: all lists of <=3 ranges over numbers 1..6 through NewFile for reserved, extension and enum reserved ranges"
 	c.Exhaustive = true
 	var n int64
 	files := univ.AllFiles()
